@@ -11,6 +11,7 @@ standards' syntax as bit-exact encoders and the derived dimensions), Spec/H264Ag
 import IpcHub.Lemmas.H264Sps
 import IpcHub.Lemmas.H264Dims
 import IpcHub.Lemmas.Asc
+import IpcHub.Lemmas.HevcDecode
 import IpcHub.Model.CodecInst
 namespace IpcHub.Props.C15
 open IpcHub.Bits IpcHub.BitSyntax IpcHub.Epb IpcHub.H264 IpcHub.H264Syntax IpcHub.AscSyntax
@@ -161,6 +162,77 @@ theorem c15_asc_pinned_counterexample :
     IpcHub.Asc.metadataIsReady IpcHub.Asc.stdCfg (encAsc s) = some (1, 48000) := by
   decide
 
+/-! ### H.265 SPS -/
+
+/-- The regenerated H.265 facts: NAL types, array bounds, the start of the sub-layer ordering loop and the
+    body of `H265RawSTRefPicSet.decode` (by hash) are the repaired ones the model describes. -/
+theorem c15_hevc_source_facts :
+    IpcHub.Hevc.CfgOK IpcHub.Hevc.genCfg ∧
+    IpcHub.Gen.hevcSpsOrderingStart = "loopStart := sps.Sps_max_sub_layers_minus1 ; if sps.Sps_sub_layer_ordering_info_present_flag == 1 { loopStart = 0 }" ∧
+    IpcHub.Gen.hevcStRpsBodySha = "aa90604d2b14f72d50d55e6dae0deb87532f22599f3b3d2ef76d6e33e0617a4d" :=
+  ⟨⟨rfl, rfl, rfl, rfl, rfl, rfl, rfl, rfl, rfl, rfl, rfl⟩, rfl, rfl⟩
+
+/-- Stage 1 (full strength): for every H.265 SPS syntax tree — any profile_tier_level with any number of
+    sub-layers, any chroma format, any conformance window — the parser reads NAL header … conformance window
+    exactly (whatever follows is left untouched) and Width()/Height() of the result are the standard's cropped
+    picture size pic_width/height_in_luma_samples − SubWidthC/SubHeightC · (offsets) (Table 6-1). -/
+theorem c15_hevc_sps_head (s : IpcHub.HevcSyntax.SpsSyn) (wf : IpcHub.Hevc.HeadWF s) (rest : List Bool) :
+    ∃ h, IpcHub.Hevc.spsHead IpcHub.Hevc.genCfg
+        (IpcHub.HevcSyntax.nalHeaderBits 33 s.nuh_layer_id s.nuh_temporal_id_plus1 ++ (IpcHub.HevcSyntax.encSpsHead s ++ rest))
+          = .ok (h, rest) ∧
+      h.picWidthInLumaSamples = s.pic_width_in_luma_samples ∧ h.picHeightInLumaSamples = s.pic_height_in_luma_samples ∧
+      h.chromaFormatIdc = s.chroma_format_idc ∧ h.spsMaxSubLayersMinus1 = s.ptl.sub_layers.length ∧
+      IpcHub.Hevc.width h = IpcHub.HevcSyntax.croppedWidth s ∧ IpcHub.Hevc.height h = IpcHub.HevcSyntax.croppedHeight s := by
+  obtain ⟨q, hq⟩ := IpcHub.Hevc.spsHead_enc _ c15_hevc_source_facts.1 s wf rest
+  exact ⟨_, hq, rfl, rfl, rfl, rfl, IpcHub.Hevc.width_headOf s q, IpcHub.Hevc.height_headOf s q⟩
+
+/-- Stage 2, **partial**.  Full statement: for every H.265 SPS syntax tree in range, `H265RawSPS.Decode` on the
+    NAL unit of the specification's encoder succeeds, agrees with the tree, and `hevc.MetadataIsReady` stores the
+    standard's width, height, picture rate and the fixed-rate flag.
+    Proved here for every tree whose short-term reference picture sets are explicitly coded (`BodyWF.rps`):
+    profile_tier_level with sub-layers, sub-layer ordering info (both flag values), scaling list data, PCM,
+    long-term pictures, VUI with default display window, timing, HRD with sub-picture parameters and sub-layers,
+    extension flags, trailing bits and emulation prevention are all covered.
+    Excluded: trees containing a set with inter_ref_pic_set_prediction_flag = 1 — the model implements the
+    derivation 7.4.8 and the correspondence run compares it with the implementation and with the specification's
+    NumDeltaPocs on every generated tree, but the equivalence of the stored delta-step form with the
+    standard's delta arrays is not yet proved. -/
+theorem c15_hevc_sps_partial (s : IpcHub.HevcSyntax.SpsSyn) (hw : IpcHub.Hevc.HeadWF s) (bw : IpcHub.Hevc.BodyWF s)
+    (htid : 1 ≤ s.nuh_temporal_id_plus1) (vps pps : List UInt8) (hv : vps ≠ []) (hp : pps ≠ []) :
+    (∃ raw, IpcHub.Hevc.decodeSps IpcHub.Hevc.genCfg (IpcHub.HevcSyntax.encSpsNal s) = .ok raw ∧ IpcHub.Hevc.Agrees raw s) ∧
+    IpcHub.Hevc.metadataIsReady IpcHub.Hevc.genCfg vps (IpcHub.HevcSyntax.encSpsNal s) pps =
+      some { width := IpcHub.HevcSyntax.croppedWidth s, height := IpcHub.HevcSyntax.croppedHeight s,
+             fixed := IpcHub.HevcSyntax.fixedFrameRate s, fps := IpcHub.HevcSyntax.frameRate s } := by
+  obtain ⟨raw, hd, ha⟩ := IpcHub.Hevc.decodeSps_enc _ c15_hevc_source_facts.1 s hw bw htid
+  refine ⟨⟨raw, hd, ha⟩, ?_⟩
+  have h1 : vps.isEmpty = false := by cases vps <;> simp_all
+  have h2 : pps.isEmpty = false := by cases pps <;> simp_all
+  have h3 : (IpcHub.HevcSyntax.encSpsNal s).isEmpty = false := by
+    obtain ⟨b0, b1, hpk, _, _⟩ := IpcHub.Hevc.pack_nalHeader 33 s.nuh_layer_id s.nuh_temporal_id_plus1 (Or.inr rfl) ⟨htid, hw.tid⟩
+    simp [IpcHub.HevcSyntax.encSpsNal, hpk]
+  simp [IpcHub.Hevc.metadataIsReady, h1, h2, h3, hd, IpcHub.Hevc.dims_of_agrees raw s ha]
+
+/-- The pinned tree as models with the old facts: (a) with the sub-layer ordering loop inverted, a valid SPS with
+    two temporal sub-layers and ordering info for both is misparsed — 30000/1001 fps becomes "no timing"; (b) with
+    the `uint8` down-counting loops, a valid SPS whose second RPS is predicted from the first is rejected by an
+    index panic, while the repaired decoder accepts it (corpus/C15/hevc-*.case replay both on the implementation). -/
+theorem c15_hevc_pinned_counterexamples :
+    let oldOrd : IpcHub.Hevc.Cfg := { IpcHub.Hevc.genCfg with spsOrderingStd := false }
+    let oldRps : IpcHub.Hevc.Cfg := { IpcHub.Hevc.genCfg with rpsInterStd := false }
+    let s2 : IpcHub.HevcSyntax.SpsSyn :=
+      { ptl := { sub_layers := [{}] }, pic_width_in_luma_samples := 1280, pic_height_in_luma_samples := 720,
+        ordering := [(2, 0, 0), (4, 2, 5)], vui_parameters_present_flag := true,
+        vui := { vui_timing_info_present_flag := true, vui_num_units_in_tick := 1001, vui_time_scale := 30000 } }
+    let sInter : IpcHub.HevcSyntax.SpsSyn :=
+      { pic_width_in_luma_samples := 64, pic_height_in_luma_samples := 64,
+        st_ref_pic_sets := [.explicit [(0, true), (1, true)] [(0, true)],
+                            .inter true 0 [(true, true), (false, false), (true, true), (false, true)]] }
+    (IpcHub.Hevc.metadataIsReady oldOrd [0x40] (IpcHub.HevcSyntax.encSpsNal s2) [0x44]).map (·.fps) ≠ some (some (30000, 1001)) ∧
+    (IpcHub.Hevc.metadataIsReady IpcHub.Hevc.genCfg [0x40] (IpcHub.HevcSyntax.encSpsNal s2) [0x44]).map (·.fps) = some (some (30000, 1001)) ∧
+    IpcHub.Hevc.metadataIsReady oldRps [0x40] (IpcHub.HevcSyntax.encSpsNal sInter) [0x44] = none ∧
+    (IpcHub.Hevc.metadataIsReady IpcHub.Hevc.genCfg [0x40] (IpcHub.HevcSyntax.encSpsNal sInter) [0x44]).map (·.width) = some 64 := by
+  decide +kernel
+
 /-! ### non-vacuity -/
 
 /-- a syntax tree with scaling lists (one ending early), POC type 1 with negative offsets, field
@@ -188,5 +260,37 @@ example : SpsWF
 example : AscWF { aot := 2, samplingFrequencyIndex := 6, channelConfiguration := 1,
                   signalling := .backward true 15 48000 (some true) } := by
   refine { aot := ?_, idx := ?_, freq := ?_, cc := ?_, sig := ?_ } <;> decide
+
+/-- an H.265 SPS with two sub-layers, conformance window, PCM, two explicit reference picture sets, long-term
+    pictures, VUI with timing and HRD meets `HeadWF` and `BodyWF` -/
+example : let s : IpcHub.HevcSyntax.SpsSyn :=
+      { ptl := { sub_layers := [{ profile_present_flag := true, level_present_flag := true }] },
+        pic_width_in_luma_samples := 1920, pic_height_in_luma_samples := 1088, conformance_window_flag := true,
+        conf_win_bottom_offset := 4, ordering := [(2, 0, 0), (4, 2, 5)], pcm_enabled_flag := true,
+        st_ref_pic_sets := [.explicit [(0, true), (1, false)] [(0, true)], .explicit [(3, true)] []],
+        long_term_ref_pics_present_flag := true, long_term := [(5, true)],
+        vui_parameters_present_flag := true,
+        vui := { vui_timing_info_present_flag := true, vui_num_units_in_tick := 1001, vui_time_scale := 60000,
+                 vui_hrd_parameters_present_flag := true,
+                 hrd := { nal_hrd_parameters_present_flag := true,
+                          sub_layers := [{ nal := [{}] }, { fixed_pic_rate_general_flag := true, cpb_cnt_minus1 := 1, nal := [{}, {}] }] } } }
+    IpcHub.Hevc.HeadWF s ∧ IpcHub.Hevc.BodyWF s := by
+  intro s
+  constructor
+  · refine { layer := ?_, tid := ?_, vid := ?_, msl := ?_, id := ?_, cf := ?_, w := ?_, h := ?_, cl := ?_, cr := ?_, ct := ?_, cb := ?_ } <;> decide
+  · refine { msl := by decide, bdl := by decide, bdc := by decide, lsb := by decide, ordLen := by decide, ord := by decide,
+             minCb := by decide, diffCb := by decide, minTb := by decide, diffTb := by decide, thInter := by decide,
+             thIntra := by decide, alignW := by decide, alignH := by decide, sl := fun h => absurd h (by decide),
+             pcm1 := by decide, pcm2 := by decide, pcm3 := by decide, pcm4 := by decide, nrps := by decide,
+             rps := ⟨⟨by decide, by decide⟩, ⟨by decide, by decide⟩, ⟨by decide, by decide⟩, ⟨by decide, by decide⟩, trivial⟩,
+             lt := fun _ => ⟨by decide, by decide⟩, vui := fun _ => ?_, e5 := by decide }
+    refine { ar := by decide, sw := by decide, sh := by decide, vf := by decide, cp := by decide, tc := by decide,
+             mc := by decide, clt := by decide, clb := by decide, dl := by decide, dr := by decide, dt := by decide,
+             db := by decide, nut := by decide, ts := by decide, nt := by decide, hrd := fun _ _ => ?_, mss := by decide,
+             r1 := by decide, r2 := by decide, r3 := by decide, r4 := by decide }
+    refine { td := by decide, du := by decide, dd := by decide, brs := by decide, css := by decide, cds := by decide,
+             i1 := by decide, i2 := by decide, i3 := by decide, len := by decide, subs := ?_ }
+    exact ⟨⟨by decide, by decide, fun _ => ⟨by decide, by decide⟩, fun h => absurd h (by decide)⟩,
+           ⟨by decide, by decide, fun _ => ⟨by decide, by decide⟩, fun h => absurd h (by decide)⟩, trivial⟩
 
 end IpcHub.Props.C15
